@@ -20,7 +20,7 @@ def tlc_histories(chk, num, depth, seed):
 
     out = tempfile.mkdtemp(prefix="eko-verif-sim-")
     try:
-        cmd = ["java", "-cp", TLA_CP, "tlc2.TLC", "-simulate", f"file={out}/tr,num={num}",
+        cmd = ["java", f"-Djava.io.tmpdir={out}", "-cp", TLA_CP, "tlc2.TLC", "-simulate", f"file={out}/tr,num={num}",
                "-depth", str(depth), "-workers", "1", "-seed", str(seed), "-metadir", f"{out}/m",
                "-config", "StoreMC_sim.cfg", "StoreMC"]
         p = subprocess.run(cmd, cwd=str(SPEC), capture_output=True, text=True, timeout=900)
@@ -65,6 +65,7 @@ ALPHA_OBJ = [
 ALPHA_WRITE = [
     H("set", k="k1", v="b"), H("set", k="k3", v="e"), H("update"), H("recipe"), H("dump"),
     H("get", k="k1"), H("del", k="k2"), H("setmeta", m="m1"), H("items"), H("close"), H("unload"), H("sync"),
+    H("getrecipe"),
 ]
 ALPHA_NONE = [H("create"), H("read"), H("edit"), H("createbad", v="suffix"), H("createbad", v="cards")]
 
